@@ -992,6 +992,11 @@ HMCIstaccess(accrec_t *access_rec, /* IN: access record to fill in */
             UINT16DECODE(p, info->sp_ref);     /* 2 bytes */
             INT32DECODE(p, info->ndims);       /* 4 bytes */
                                                /* = 29 bytes */
+            /* a header that was only partly written (or is damaged) must not be trusted:
+               the dimension records have to fit into the header that was read */
+            if (info->ndims <= 0 || info->ndims > (info->sp_tag_header_len - 29 - 4) / 12)
+                HGOTO_ERROR(DFE_BADDIM, FAIL);
+
             /* create dimension, seek_block and seek_pos arrays
                given number of dims */
             if (create_dim_recs(&(info->ddims), &(info->seek_chunk_indices), &(info->seek_pos_chunk),
@@ -1006,6 +1011,8 @@ HMCIstaccess(accrec_t *access_rec, /* IN: access record to fill in */
                 INT32DECODE(p, (info->ddims[j].dim_length));   /* 4 bytes */
                 INT32DECODE(p, (info->ddims[j].chunk_length)); /* 4 bytes */
                                                                /* = 12 bytes */
+                if (info->ddims[j].chunk_length <= 0 || info->ddims[j].dim_length < 0)
+                    HGOTO_ERROR(DFE_BADDIM, FAIL);
 
                 /* check 'flag' and decode settings */
                 info->ddims[j].distrib_type = (int32)(0xff & info->ddims[j].flag);
